@@ -3,13 +3,14 @@
 
 For each /tmp/seeded-out/<ID>/<k>/ : (1) the patch applies to the pristine tree, (2) the module builds and the existing
 test suite passes with it, (3) the demonstration PASSES without the change and FAILS with it.
-usage: verify_seed.py <ID>/<k> [...]
+usage: [SEED_SRC=dir SEED_TAG=r2] verify_seed.py <ID>/<k> [...]
 """
 import json, os, re, shutil, subprocess, sys, tempfile
 
 ENV = dict(os.environ, GOFLAGS="-mod=mod", GOPROXY="off", GOSUMDB="off", GOTOOLCHAIN="local")
-SRC = "/tmp/seeded-out"
+SRC = os.environ.get("SEED_SRC", "/tmp/seeded-out")
 DST = "/verif/seeded"
+TAG = os.environ.get("SEED_TAG", "")  # e.g. "r2" -> /verif/seeded/<ID>-r2-<k>
 
 def sh(cmd, cwd=None, env=ENV, timeout=900):
     p = subprocess.run(cmd, shell=True, cwd=cwd, env=env, capture_output=True, text=True, timeout=timeout)
@@ -46,7 +47,7 @@ def main():
                     raise RuntimeError("cannot parse placement: " + head[:200])
                 where = "" if m.group(1) == "module root" else m.group(1)
                 name = m.group(2).rstrip(";")
-                m2 = re.search(r"run: (go test [^\n]*)", head)
+                m2 = re.search(r"run: ((?:[A-Z0-9_]+=\S+ )*go test [^\n(]*)", head)
                 runcmd = m2.group(1).strip()
                 target = os.path.join(wt, where, name)
                 place = os.path.join(where, name)
@@ -70,7 +71,7 @@ def main():
             ok = rc0 == 0 and rca == 0 and rcb == 0 and rc1 != 0
             res["confirmed"] = ok
             if ok:
-                out = os.path.join(DST, f"{pid}-{k}")
+                out = os.path.join(DST, f"{pid}-{TAG + '-' if TAG else ''}{k}")
                 os.makedirs(out, exist_ok=True)
                 shutil.copy(os.path.join(d, "patch.diff"), out)
                 shutil.copy(os.path.join(d, demo), out)
